@@ -7,7 +7,7 @@ From MMD.lib Require Import Lemon Utf8 XmlDfa.
 From MMD.lib Require Import MiniC.
 From MMD.gen Require Import ParserTables Bounds.
 From MMD.gen Require Import Escapers CharTable.
-From MMD.model Require Import DStringModel DStringSpec PoolModel TreeCheck LabelModel CriticModel TranscludeModel MetaModel AnchorModel HeaderIdModel OpmlModel MetaSwitchModel TableAlignModel.
+From MMD.model Require Import DStringModel DStringSpec PoolModel TreeCheck LabelModel CriticModel TranscludeModel MetaModel AnchorModel HeaderIdModel OpmlModel MetaSwitchModel TableAlignModel SpecRender.
 From MMD.proofs Require Import EscaperProofs.
 Extraction Language OCaml.
 Extraction "mmdmodel.ml"
@@ -27,4 +27,5 @@ Extraction "mmdmodel.ml"
   HeaderIdModel.header_id HeaderIdModel.header_span HeaderIdModel.manual_id HeaderIdModel.reference_label
   OpmlModel.xml_as_text OpmlModel.export_tags OpmlModel.import_levels OpmlModel.properly_nested
   MetaSwitchModel.process MetaSwitchModel.is_control MiniC.has_flag
-  TableAlignModel.record TableAlignModel.colspec Bounds.table_alignment_size Bounds.record_limit.
+  TableAlignModel.record TableAlignModel.colspec Bounds.table_alignment_size Bounds.record_limit
+  SpecRender.render SpecRender.spell.
